@@ -7,6 +7,7 @@ waits for in its `crc32` special case (seen by a recording Channel subclass)."""
 def extract(p: dict) -> None:
     import vclock
     from tbot.machine import board, channel
+    import mockio
     import ubootimpl
 
     default = board.UBootShell.prompt
@@ -37,7 +38,7 @@ def extract(p: dict) -> None:
                 con.table = ([cmd, b"0", b"4"], b"crc32 for 00000000 ... 00000003 ==> 2144df1c\n", 0)
                 try:
                     m.exec(cmd.decode(), "0", "4")
-                except Exception:   # only the prompt the call waited for is of interest here
+                except (Exception, mockio.Hang):   # only the prompt the call waited for is of interest here
                     pass
         ov = [x for x in seen if x is not None]
         return ov[0] if ov else None
